@@ -459,8 +459,12 @@ static void vorbis_encode_residue_setup(vorbis_info *vi,
   codec_setup_info *ci=vi->codec_setup;
   int i;
 
-  vorbis_info_residue0 *r=ci->residue_param[number]=
-    _ogg_malloc(sizeof(*r));
+  /* several maps/submaps may reference the same residue slot (the 5.1
+     maps share the LFE residue); reuse the slot instead of leaking the
+     earlier allocation */
+  vorbis_info_residue0 *r=ci->residue_param[number];
+  if(!r)
+    r=ci->residue_param[number]=_ogg_malloc(sizeof(*r));
 
   memcpy(r,res->res,sizeof(*r));
   if(ci->residues<=number)ci->residues=number+1;
